@@ -1,13 +1,13 @@
 CONSTANTS
   MaxReq = 3
-  Kinds <- AllKinds
+  Kinds <- AbandonOnly
   GapKinds <- Gaps01
   UniformGaps = FALSE
   PipeCap = 2
   BigChunks = 3
   BreakOutAfterPanic = TRUE
-  DrainAbandoned = TRUE
+  DrainAbandoned = FALSE
   RespawnOnEpipe = TRUE
 CHECK_DEADLOCK FALSE
 SPECIFICATION Spec
-INVARIANTS OneReplyEach OwnReply Isolation NoStale GenPattern EmitCase
+INVARIANTS NoStale
